@@ -10,21 +10,35 @@ from pytezos.michelson.instructions.base import dispatch_types
 from pytezos.michelson.instructions.base import format_stdout
 from pytezos.michelson.stack import MichelsonStack
 from pytezos.michelson.types import BoolType
+from pytezos.michelson.types import BytesType
 from pytezos.michelson.types import IntType
 from pytezos.michelson.types import NatType
 
 
+def bytes_bitwise(a: bytes, b: bytes, op: Callable, truncate: bool) -> bytes:
+    """Bitwise operation on byte strings aligned on their last byte:
+    AND truncates the longer operand, OR and XOR pad the shorter one with zero bytes on the left."""
+    length = min(len(a), len(b)) if truncate else max(len(a), len(b))
+    a = a[len(a) - length :] if len(a) > length else a.rjust(length, b'\x00')
+    b = b[len(b) - length :] if len(b) > length else b.rjust(length, b'\x00')
+    return bytes(op((x, y)) for x, y in zip(a, b))
+
+
 def execute_boolean_add(prim: str, stack: MichelsonStack, stdout: List[str], add: Callable):
-    a, b = cast(Tuple[Union[BoolType, NatType], ...], stack.pop2())
+    a, b = cast(Tuple[Union[BoolType, NatType, BytesType], ...], stack.pop2())
     res_type, convert = dispatch_types(
         type(a),
         type(b),
         mapping={
             (BoolType, BoolType): (BoolType, bool),
             (NatType, NatType): (NatType, int),
+            (BytesType, BytesType): (BytesType, bytes),
         },
     )
-    val = add((convert(a), convert(b)))
+    if res_type is BytesType:
+        val = bytes_bitwise(bytes(a), bytes(b), add, truncate=False)  # type: ignore
+    else:
+        val = add((convert(a), convert(b)))
     res = res_type.from_value(val)
     stack.push(res)
     stdout.append(format_stdout(prim, [a, b], [res]))
@@ -47,7 +61,7 @@ class XorInstruction(MichelsonInstruction, prim='XOR'):
 class AndInstruction(MichelsonInstruction, prim='AND'):
     @classmethod
     def execute(cls, stack: MichelsonStack, stdout: List[str], context: AbstractContext):
-        a, b = cast(Tuple[Union[BoolType, NatType, IntType], ...], stack.pop2())
+        a, b = cast(Tuple[Union[BoolType, NatType, IntType, BytesType], ...], stack.pop2())
         res_type, convert = dispatch_types(
             type(a),
             type(b),
@@ -56,9 +70,13 @@ class AndInstruction(MichelsonInstruction, prim='AND'):
                 (NatType, NatType): (NatType, int),
                 (NatType, IntType): (NatType, int),
                 (IntType, NatType): (NatType, int),
+                (BytesType, BytesType): (BytesType, bytes),
             },
         )
-        res = res_type.from_value(convert(a) & convert(b))
+        if res_type is BytesType:
+            res = res_type.from_value(bytes_bitwise(bytes(a), bytes(b), lambda x: x[0] & x[1], truncate=True))  # type: ignore
+        else:
+            res = res_type.from_value(convert(a) & convert(b))
         stack.push(res)
         stdout.append(format_stdout(cls.prim, [a, b], [res]))  # type: ignore
         return cls(stack_items_added=1)
@@ -67,13 +85,14 @@ class AndInstruction(MichelsonInstruction, prim='AND'):
 class NotInstruction(MichelsonInstruction, prim='NOT'):
     @classmethod
     def execute(cls, stack: MichelsonStack, stdout: List[str], context: AbstractContext):
-        a = cast(Union[IntType, NatType, BoolType], stack.pop1())
+        a = cast(Union[IntType, NatType, BoolType, BytesType], stack.pop1())
         res_type, convert = dispatch_types(
             type(a),
             mapping={
                 (NatType,): (IntType, lambda x: ~int(x)),
                 (IntType,): (IntType, lambda x: ~int(x)),
                 (BoolType,): (BoolType, lambda x: not bool(x)),
+                (BytesType,): (BytesType, lambda x: bytes(v ^ 0xFF for v in bytes(x))),
             },
         )
         res = res_type.from_value(convert(a))
